@@ -9,34 +9,43 @@
 (* instructions since the limit was set (it does not trust the              *)
 (* implementation's meter) and requires, after every event,                 *)
 (*     count <= N,  ds <= S,  heap <= H.                                    *)
+(* A second independent witness of executed instructions is the output:     *)
+(* every "%" on stdout was printed by one `print` instruction of its own    *)
+(* (the driver's marker sources), also inside meta blocks of sources that    *)
+(* are rejected afterwards; so  marks <= N  as well.  Setting the stack or   *)
+(* heap limit alone ("keepmeter") does not hand out a new budget.            *)
 (***************************************************************************)
 EXTENDS Naturals, Integers, Sequences, TLC, Json, IOUtils
 
 Rec == ndJsonDeserialize(IOEnv.TRACE)
-VARIABLES l, N, S, H, count, run
-vars == <<l, N, S, H, count, run>>
+VARIABLES l, N, S, H, count, run, marks
+vars == <<l, N, S, H, count, run, marks>>
 \* A limit set below the current size bounds growth, it cannot shrink what is already there:
 \* S and H hold max(limit, size when the limit was set).
 Ev == Rec[l]
 
-Init == l = 1 /\ N = -1 /\ S = -1 /\ H = -1 /\ count = 0 /\ run = -1
+Init == l = 1 /\ N = -1 /\ S = -1 /\ H = -1 /\ count = 0 /\ run = -1 /\ marks = 0
+Marks == IF "marks" \in DOMAIN Ev THEN Ev.marks ELSE 0
 
 Within(x, lim) == lim < 0 \/ x <= lim
 
-Reset == Ev.ev = "reset" /\ N' = -1 /\ S' = -1 /\ H' = -1 /\ count' = 0 /\ run' = Ev.run
+Reset == Ev.ev = "reset" /\ N' = -1 /\ S' = -1 /\ H' = -1 /\ count' = 0 /\ run' = Ev.run /\ marks' = 0
 SetLimit == /\ Ev.ev = "setlimit"
-            /\ N' = Ev.n
+            /\ N' = IF "keepmeter" \in DOMAIN Ev THEN N ELSE Ev.n
             /\ S' = IF Ev.s >= 0 /\ Ev.ds > Ev.s THEN Ev.ds ELSE Ev.s
             /\ H' = IF Ev.h >= 0 /\ Ev.heap > Ev.h THEN Ev.heap ELSE Ev.h
-            /\ count' = IF Ev.n = N /\ "keepmeter" \in DOMAIN Ev THEN count ELSE 0
+            /\ count' = IF "keepmeter" \in DOMAIN Ev THEN count ELSE 0
+            /\ marks' = IF "keepmeter" \in DOMAIN Ev THEN marks ELSE 0
             /\ UNCHANGED run
 StepEv == /\ Ev.ev = "step"
           /\ count' = IF Ev.ok = 1 THEN count + 1 ELSE count
-          /\ Within(count', N) /\ Within(Ev.ds, S) /\ Within(Ev.heap, H)
+          /\ marks' = marks + Marks
+          /\ Within(count', N) /\ Within(marks', N) /\ Within(Ev.ds, S) /\ Within(Ev.heap, H)
           /\ UNCHANGED <<N, S, H, run>>
 \* a whole call: only the state bounds can be observed independently
 CallEv == /\ Ev.ev = "call"
-          /\ Within(Ev.ds, S) /\ Within(Ev.heap, H)
+          /\ marks' = marks + Marks
+          /\ Within(marks', N) /\ Within(Ev.ds, S) /\ Within(Ev.heap, H)
           /\ UNCHANGED <<N, S, H, count, run>>
 
 Next == l <= Len(Rec) /\ l' = l + 1 /\ (Reset \/ SetLimit \/ StepEv \/ CallEv)
